@@ -258,6 +258,45 @@ def check_ioerr(crate, rep, cfg):
                         "data while the render still returns Ok (use write_all)")
                 k += 1
     rep.ok("C18.IOERR", "C18.IOERR:no-partial-writes", "", "no call of Write::write (partial write) on the writer paths; only write_all / write_fmt / the escaper")
+    # the writer's failure also travels as a TeraResult through the nested renders (include, component, block, super): whatever kind of
+    # error a nested render returns, the instruction that called it must end in a return — not only for the kind it decorates
+    import rrec
+    vm = crate.one("vm::interpreter::VirtualMachine::<'tera>::interpret")
+    heads = {bb for bb, t in find_calls(vm, ["parsing::instructions::Chunk::get"])}
+    ef = EdgeFacts(vm, crate)
+    tr = Tracer(vm)
+    k = 0
+    for bb, t in vm.calls():
+        cd = callee_def(t)
+        if not (cd.endswith("::render_include") or cd.endswith("::render_component") or cd.endswith("VirtualMachine::<'tera>::interpret")):
+            continue
+        # switches on the discriminant of this call's Result (directly, or after `?`'s branch())
+        err_targets = []
+        for sb in sorted(vm.reachable):
+            st = vm.term(sb)
+            if st["k"] != "switch" or st["op"]["k"] == "const" or st["op"]["pl"]["p"]:
+                continue
+            d = ef.single_def(st["op"]["pl"]["l"])
+            if not (d and d[3]["k"] == "discr"):
+                continue
+            src = [l for l in tr.place(d[3]["pl"]) if l.kind != "cycle"]
+            if not (src and any(l.kind == "call" and l.detail[2] == bb for l in src) and
+                    all(l.kind == "call" and not [p for p in l.projs if p.startswith("as:") or p.startswith(".")] for l in src)):
+                continue
+            for tgt, fl in ef.facts_for_switch(sb).items():
+                for f in fl:
+                    if f[0] == "variant" and f[4] and set(f[3]) <= {"Err", "Break"} and f[3] and tgt != sb:
+                        err_targets.append(tgt)
+        ok = bool(err_targets)
+        why = "no test of the nested result found"
+        for tgt in err_targets:
+            if vm.reach_from(tgt) & heads:
+                ok = False
+                why = "from the Err edge at %s the next instruction is reachable (an error of some kind is dropped and rendering goes on)" % vm.where(tgt)
+        rep.add("C18.IOERR", "C18.IOERR:vm:%s#%d:error-always-returns" % (cd.rsplit("::", 1)[-1], k), ok, vm.where(bb), "an Err from the nested render ends the instruction in a "
+                "return, whatever its kind (an I/O failure inside an include / component / block is not swallowed)" + ("" if ok else " — VIOLATED: " + why))
+        k += 1
+    rep.floor("C18.IOERR", "nested renders whose Err edge is checked [%s]" % cfg, k, 6)
     # From<io::Error> for Error builds ErrorKind::Io
     f = [b for p, b in crate.bodies.items() if "From<std::io::Error>" in p and "errors" in p]
     ok = False
